@@ -1,8 +1,8 @@
 #!/usr/bin/env python3
 # seedrelated.py <patch>: the properties whose functions under contract live in the files a patch touches
 import re,sys
-m={'mux.go':'C05 C06 C09','group.go':'C06','request.go':'C04 C05 C07 C18','service.go':'C01 C02 C03 C05 C07 C09 C15','worker.go':'C01 C02 C03',
- 'resource.go':'C07 C08 C15','queryevent.go':'C15','pattern.go':'C17 C07','errors.go':'C05 C07 C04','store/storehandler.go':'C10','store/value.go':'C18 C10',
+m={'mux.go':'C05 C06 C08 C09','group.go':'C06','request.go':'C04 C05 C07 C18','service.go':'C01 C02 C03 C05 C07 C09 C15','worker.go':'C01 C02 C03',
+ 'resource.go':'C07 C08 C15','queryevent.go':'C15 C07','store/transformer.go':'C10 C17','pattern.go':'C17 C07','errors.go':'C05 C07 C04','store/storehandler.go':'C10','store/value.go':'C18 C10',
  'store/querystorehandler.go':'C14','store/badgerstore/store.go':'C11 C12 C13 C14','store/badgerstore/querystore.go':'C13 C14 C12','store/badgerstore/index.go':'C13 C14 C12',
  'store/mockstore/store.go':'C11','resprot/resprot.go':'C18 C19','codes.go':'C07 C05'}
 out=[]
